@@ -23,7 +23,7 @@ Proof.
       case_if H. injection H as <-. apply key_to_pie_init with kb; exact E.
     + case_if H. apply key_to_pie_init with kb; exact H.
     + case_if H. apply key_to_pie_init with kb; exact H.
-  - inv_bind H. injection H as <-. destruct (key_to_pie_init _ _ _ E) as (I1 & I2 & I3 & I4 & I5 & I6 & I7 & I8).
+  - inv_bind H. case_if H. injection H as <-. destruct (key_to_pie_init _ _ _ E) as (I1 & I2 & I3 & I4 & I5 & I6 & I7 & I8).
     unfold init_ok; simpl. repeat split; assumption.
   - case_if H. injection H as <-. unfold init_ok; simpl. repeat split.
   - injection H as <-. unfold init_ok; simpl. repeat split.
@@ -103,7 +103,7 @@ Proof.
       - case_if H. exists CPriv. split; [reflexivity|exact H]. }
     destruct X as (c' & K & X). unfold key_to_pie in X. destruct (kb_alg kb); destruct (kb_len kb); simpl in X; try discriminate X.
     inv_bind X. injection X as <-. simpl. rewrite K. repeat split.
-  - inv_bind H. injection H as <-. simpl. unfold key_to_pie in E. destruct (kb_alg kb); destruct (kb_len kb); simpl in E; try discriminate E.
+  - inv_bind H. case_if H. injection H as <-. simpl. unfold key_to_pie in E. destruct (kb_alg kb); destruct (kb_len kb); simpl in E; try discriminate E.
     inv_bind E. injection E as <-. simpl. repeat split.
   - case_if H. injection H as <-. simpl. repeat split.
   - injection H as <-. simpl. repeat split.
